@@ -65,6 +65,7 @@ uint64_t opcase_canon(opcase_t *c);  /* configuration independent outputs */
 void opcase_cleanup(opcase_t *c);
 void opcase_fail(opcase_t *c, const char *kind, const char *fmt, ...);
 void opcase_placements(opcase_t *c, char *buf, size_t cap);
+void opcase_placements_detail(opcase_t *c, char *buf, size_t cap);
 /* deep copy of inputs/params into a fresh case (for differential runs) */
 void opcase_clone_inputs(opcase_t *dst, const opcase_t *src);
 /* compare a library matrix with the model value; reports wrong-result */
